@@ -120,7 +120,10 @@ def main():
         else:
             rec['result'] = 'not_reported'
             rec['checks'] = {}
-            for pid in sorted(files[rel]):
+            # the anchored properties first, then the history-based checks that execute most instructions (a mutant of a handler often
+            # breaks a property anchored elsewhere)
+            broad = [x for x in ['C01', 'C05', 'C08', 'C16', 'C18', 'C11'] if x not in files[rel]] if rel.startswith('programs/whirlpool/src/') else []
+            for pid in sorted(files[rel]) + broad:
                 r = subprocess.run([os.path.join(a.verif, 'check'), pid, 'quick'], env=env, capture_output=True, text=True)
                 lines = [l for l in r.stdout.splitlines() if l.startswith(('violation in', 'regression case', 'VIOLATION', 'INCONCLUSIVE'))]
                 rec['checks'][pid] = r.returncode
@@ -129,8 +132,10 @@ def main():
                     rec['by'] = pid
                     rec['message'] = (lines[0] if lines else '')[:300]
                     break
-                if r.returncode == 2:
+                if r.returncode == 2 and rec['result'] == 'not_reported':
+                    # generator-health guard or watchdog: the run decided nothing and says so (never OK)
                     rec['result'] = 'inconclusive'
+                    rec['by'] = pid
                     rec['message'] = (lines[0] if lines else '')[:300]
             if rec['result'] in ('not_reported', 'inconclusive'):
                 t = subprocess.run(['cargo', 'test', '--workspace', '--offline'], cwd=a.repo, env=env, capture_output=True, text=True)
